@@ -1,6 +1,5 @@
 PROP = dict(
     id="C27",
-    disabled=True,
     engines=["c27"],
     go_tags=["c27"],
     lean_modules=["MM.Props.C27"],
